@@ -77,6 +77,14 @@ CHECKS["C18"] = dict(level="exploration", design="4/C18", engine="sandbox-and-wa
     technique="property-based testing: sandbox snapshots before/after runs with and without -o, stdout decomposition against the -o pages",
     text="Whole-sandbox snapshots (paths, sizes, hashes) around runs with output directories that are absolute, relative, nested in the input tree (fresh or pre-existing), the parent of the input, or pre-populated: everything created or modified lies inside the output directory, nothing is deleted, unrelated files are untouched; without -o nothing changes on disk and stdout decomposes exactly into the pages of the -o run, each once with one empty line, sorted within a directory (sample re-run as a subprocess).",
     note=SBX_NOTE)
+CHECKS["C05"] = dict(level="exploration", design="4/C05", engine="cmake-differential-and-reference-lexer",
+    technique="property-based + differential testing: grammar-derived files vs construction knowledge and `cmake --trace` (CMake 3.25.1), plus the 977-file CMake corpus vs a reference lexer",
+    text="Grammar-derived files (every argument form, escapes, continuations, bracket levels with near-miss closers, nested parentheses, comments glued to arguments, non-ASCII, CRLF, command names from CMinx's own vocabulary) must be parsed by CMinx into exactly the generator's command/argument sequence, processed to completion, and shown in order for documented generic commands; a deterministic quarter of the files is also executed by CMake itself whose trace must give the same argument boundaries (otherwise the generator is unsound: exit 2). All 977 files shipped with CMake must be processed without error and agree per command with a reference lexer written from cmake-language(7).",
+    note="Trusts CMake 3.25.1 as the lexical judge and vlib/ref_lexer.py (itself compared with CMake on every sampled file). Only flat sequences of calls to no-op functions can be executed by cmake -P. Legacy unquoted arguments are outside the guarantee.")
+CHECKS["C19"] = dict(level="exploration", design="4/C19", engine="sandbox-and-walk-model",
+    technique="differential testing over generated inputs and extra-argument lists: cmake -P driving cminx_gen_rst() with an argv-logging wrapper vs the direct CLI run",
+    text="A generated driver script calls cminx_gen_rst() through `cmake -P` with CMINX_EXECUTABLE bound to a wrapper that logs argv and runs the working-tree CMinx; logged argv must be input, '-r' iff directory, the extras verbatim (spaces, unicode, quotes, dollars, backslashes) and '-o output'; the output tree must be byte-identical to the direct CLI run; cmake must fail (no marker file) iff the direct run fails (missing path, syntax error, faulty file in a directory).",
+    note=SBX_NOTE + " CMake 3.25.1 executes cmake/cminx.cmake from the tree under test; values contain no ';'.")
 NOT_APPLICABLE = [
 ]
 
@@ -114,6 +122,8 @@ def main():
             "add_only": True,
         },
         "engines": [
+            {"name": "cmake-differential-and-reference-lexer", "path": "vlib/ref_lexer.py", "serves_properties": ["C05", "C06"],
+             "kind_free_text": "tokenizer written from cmake-language(7), `cmake --trace --trace-format=json-v1 -P` as independent lexical judge, corpus runner over /usr/share/cmake-3.25"},
             {"name": "sandbox-and-walk-model", "path": "vlib/sandbox.py", "serves_properties": ["C12", "C13", "C14", "C15", "C16", "C17", "C18", "C19"],
              "kind_free_text": "tree strategies and reference walk/pattern model (vlib/gen_tree.py), /dev/shm sandboxes, scandir-order shim, in-process and subprocess CLI runners, snapshots (vlib/sandbox.py)"},
             {"name": "module-generator-and-model", "path": "vlib/", "serves_properties": ["C01", "C02", "C03", "C04", "C07", "C08", "C09", "C10", "C11", "C12"],
